@@ -505,6 +505,19 @@ def _r4_defs(ctx, pkg):
                     counts.append((idx[1], f, val))
                 elif idx[0] != "const" and any(isinstance(x, tuple) and x[:1] == ("const",) and isinstance(x[1], str) and x[1].startswith(("list_of_", "num_of_")) for x in walk(idx)):
                     ctx.unrec("R4", f"render.py summary:{show(idx)[:40]}", (RENDER, f.line), "a summary key that is not a literal (nor a literal-table loop)")
+        # the table written as a dict display (`summary = {"num_of_species": len(..), "list_of_species": [..], ..}`, `.update({..})`)
+        seen_d = set()
+        for v, ln in [(v, ln) for lst in mfl.assigns.values() for v, _, _, ln, _ in lst] + [(f.value, f.line) for f in mfl.facts if f.value is not None]:
+            for x in walk(v):
+                if isinstance(x, tuple) and len(x) == 2 and x[0] == "dict" and x not in seen_d and x[1] and all(len(e) == 2 for e in x[1]):
+                    seen_d.add(x)
+                    for k_, val in x[1]:
+                        if k_[0] == "const" and isinstance(k_[1], str):
+                            fake = type("F", (), {"line": ln})()
+                            if k_[1].startswith("list_of_") and k_[1] not in stored:
+                                stored[k_[1]] = (mfl, fake, val)
+                            elif k_[1] in ("num_of_elements", "num_of_species") and not any(c[0] == k_[1] for c in counts):
+                                counts.append((k_[1], fake, val))
     for nm, (skey, attr, fld) in {"all_elements": ("list_of_elements", "elements", "name"), "all_species": ("list_of_species", "species", "name"),
                                   "all_alias": ("list_of_species_alias", "species", "alias")}.items():
         key = f"render.py summary:{nm}"
@@ -1028,19 +1041,29 @@ def _r11(ctx, pkg):
         ctx.missing("R11", "EnzoPatch.render", (PATCH, 0), "method vanished")
         return
     ctx.saw(PATCH, "EnzoPatch.render")
-    fl = Flow(fn, PATCH)
-    call = None
-    for lst in fl.assigns.values():
-        for v, *_ in lst:
-            v = simp(v)
-            if v[0] == "meth" and v[2] == "SpeciesGroups":
-                call = v
-    if call is None or len(call[3]) != 7:
+    fl = Flow(fn, PATCH, resolver=class_resolver(pkg, "EnzoPatch"))
+    # by role: the record handed to the templates is the call of the class's SpeciesGroups, wherever it is written (bound to a local
+    # or passed on directly); its fields are taken by NAME (positional arguments follow the declared field order)
+    calls = []
+    vals = [v for lst in fl.assigns.values() for v, *_ in lst] + [f.value for f in fl.facts if f.value is not None]
+    for v in vals:
+        for x in walk(simp(v)):
+            if isinstance(x, tuple) and len(x) == 5 and x[0] == "meth" and x[2] == "SpeciesGroups" and x not in calls:
+                calls.append(x)
+    order = _record_fields(pkg, "EnzoPatch", "SpeciesGroups")
+    fields = None
+    if len(calls) == 1 and order:
+        call = calls[0]
+        if len(call[3]) <= len(order) and not any(a[0] == "star" for a in call[3]) and all(k in order for k, _ in call[4]):
+            fields = dict(zip(order, call[3]))
+            fields.update(dict(call[4]))
+    names = ["intersect_enzo", "intersect_grackle", "diff_enzo", "diff_grackle"]
+    fnames = ["network_int_enzo", "network_int_grackle", "network_diff_enzo", "network_diff_grackle"]
+    if fields is None or any(f_ not in fields for f_ in fnames):
         ctx.unrec("R11", "EnzoPatch.render:SpeciesGroups", (PATCH, fn.lineno), "the SpeciesGroups(..) construction with its seven groups was not found")
         return
     want = [("In", "enzo_defined_species_name"), ("In", "grackle_species_name"), ("NotIn", "enzo_defined_species_name"), ("NotIn", "grackle_species_name")]
-    names = ["intersect_enzo", "intersect_grackle", "diff_enzo", "diff_grackle"]
-    for a, (op, table), nm in zip(call[3][3:], want, names):
+    for a, (op, table), nm in zip([fields[f_] for f_ in fnames], want, names):
         m = as_map(simp(a))
         ok = False
         found = show(simp(a))[:140]
@@ -1050,12 +1073,29 @@ def _r11(ctx, pkg):
                 lhs, rhs = ifs[0][2]
                 mr = as_map(rhs)
                 ok = lhs == body and base == ("attr", ("param", "network"), "species") and bool(mr) and mr[1] == ("call", ("global", "Species"), (mr[0],), ()) \
-                    and mr[2] == ("attr", ("global", "EnzoPatch"), table) and not mr[3]
+                    and mr[2] in (("attr", ("global", "EnzoPatch"), table), ("attr", SELF, table), ("attr", ("param", "cls"), table)) and not mr[3]
         ctx.check(ok, "R11", f"EnzoPatch.render:species_{nm}", (PATCH, fn.lineno),
                   f"network species {'in' if op == 'In' else 'not in'} the predefined list, by Species equality" if ok else
                   "the group is not `species (not) in [Species(n) for n in <predefined names>]`: compared by spelling, an electron written E- / E (or any species equal but spelled "
                   "differently) is not recognised as predefined and gets a second field slot",
                   expected=f"[s for s in species_network if s {'in' if op == 'In' else 'not in'} [Species(n) for n in EnzoPatch.{table}]]", found=found)
+
+
+def _record_fields(pkg, cname, rname):
+    """field names, in order, of a record type nested in a class: a (data)class / typing.NamedTuple body with annotated fields, or a
+    class-level `R = namedtuple("R", "a b c" | ["a", "b", "c"])`; None when it is declared in another way"""
+    ci = pkg.classes.get(f"{cname}.{rname}")
+    if ci is not None:
+        out = [st.target.id for st in ci.node.body if isinstance(st, ast.AnnAssign) and isinstance(st.target, ast.Name)]
+        return out or None
+    node = pkg.resolve_attr(cname, rname)[1]
+    if isinstance(node, ast.Call) and ast.unparse(node.func).split(".")[-1] == "namedtuple" and len(node.args) >= 2:
+        try:
+            spec = ast.literal_eval(node.args[1])
+        except Exception:
+            return None
+        return spec.replace(",", " ").split() if isinstance(spec, str) else list(spec)
+    return None
 
 
 def class_resolver(pkg, cname):
@@ -1396,3 +1436,35 @@ BENIGN += [
         {"file": SP, "old": '        "c-",\n        "l-",\n        r"\\*",\n        "g",\n    ]\n', "new": '    ] + _ISOMER_MARKS + [r"\\*", "g"]\n'},
         {"file": SP, "old": "class Species:\n", "new": '_ISOMER_MARKS = ["c-", "l-"]\n\n\nclass Species:\n'}]},
 ]
+_GROUPS_CALL = ("        species_group = self.SpeciesGroups(\n            species_enzo,\n            species_grackle,\n            species_network,\n            species_intersect_enzo,\n"
+                "            species_intersect_grackle,\n            species_diff_enzo,\n            species_diff_grackle,\n        )\n")
+_GROUPS_CLASS = ("    @dataclass\n    class SpeciesGroups:\n        enzo: list[Species]\n        grackle: list[Species]\n        network: list[Species]\n        network_int_enzo: list[Species]\n"
+                 "        network_int_grackle: list[Species]\n        network_diff_enzo: list[Species]\n        network_diff_grackle: list[Species]\n")
+BENIGN += [
+    {"name": "enzo-groups-by-keyword-namedtuple", "edits": [
+        {"file": PATCH, "old": _GROUPS_CLASS, "new": '    SpeciesGroups = namedtuple(\n        "SpeciesGroups",\n        "enzo grackle network network_int_enzo network_int_grackle network_diff_enzo network_diff_grackle",\n    )\n'},
+        {"file": PATCH, "old": _GROUPS_CALL, "new": "        species_group = self.SpeciesGroups(\n            network=species_network,\n            enzo=species_enzo,\n            grackle=species_grackle,\n"
+         "            network_diff_enzo=species_diff_enzo,\n            network_diff_grackle=species_diff_grackle,\n            network_int_enzo=species_intersect_enzo,\n            network_int_grackle=species_intersect_grackle,\n        )\n"}]},
+]
+MUTANTS += [
+    {"name": "enzo-groups-keyword-swapped", "file": PATCH, "old": _GROUPS_CALL, "new": "        species_group = self.SpeciesGroups(\n            network=species_network,\n            enzo=species_enzo,\n            grackle=species_grackle,\n"
+     "            network_diff_enzo=species_intersect_enzo,\n            network_diff_grackle=species_diff_grackle,\n            network_int_enzo=species_diff_enzo,\n            network_int_grackle=species_intersect_grackle,\n        )\n", "rules": ["R11"]},
+]
+_SUMMARY_ALL = ('        summary["num_of_elements"] = len(net.elements)\n        summary["num_of_species"] = len(net.species)\n        summary["num_of_grains"] = len(net.grains)\n'
+                '        summary["num_of_gas_species"] = len(gas_species)\n        summary["num_of_ice_species"] = len(ice_species)\n        summary["num_of_grain_species"] = len(grain_species)\n'
+                '        summary["num_of_reactions"] = len(net.reactions)\n        summary["list_of_elements"] = all_elements\n        summary["list_of_species"] = all_species\n'
+                '        summary["list_of_species_alias"] = all_alias\n        summary["list_of_gas_species"] = gas_species\n        summary["list_of_ice_species"] = ice_species\n'
+                '        summary["list_of_grain_species"] = grain_species\n')
+
+
+def _summary_display(alias="all_alias", nspec="len(net.species)"):
+    return {"file": RENDER, "old": _SUMMARY_ALL, "new": '        summary.update({\n            "num_of_elements": len(all_elements),\n            "num_of_species": ' + nspec + ',\n            "num_of_grains": len(net.grains),\n'
+            '            "num_of_gas_species": len(gas_species),\n            "num_of_ice_species": len(ice_species),\n            "num_of_grain_species": len(grain_species),\n'
+            '            "num_of_reactions": len(net.reactions),\n            "list_of_elements": all_elements,\n            "list_of_species": all_species,\n'
+            '            "list_of_species_alias": ' + alias + ',\n            "list_of_gas_species": gas_species,\n            "list_of_ice_species": ice_species,\n'
+            '            "list_of_grain_species": grain_species,\n        })\n'}
+
+
+BENIGN += [dict(_summary_display(), name="summary-as-dict-display")]
+MUTANTS += [dict(_summary_display(alias="[x.alias for x in net.species if not x.is_surface]"), name="summary-dict-display-alias-skips-ice", rules=["R4"]),
+            dict(_summary_display(nspec="len(gas_species)"), name="summary-dict-display-counts-gas-only", rules=["R5"])]
